@@ -45,7 +45,7 @@ def cases(tier, seed):
         i += 1
 
 
-ATOMS = ["1", "2", "7", "n", "m"]
+ATOMS = ["1", "2", "7", "n", "m", "len('a  b')"]     # (a literal whose text has consecutive blanks)
 COMPOUND = ["1 + 1", "n - 2", "n * m", "-n", "n if m else 3", "(2, 3)[0]", "len('ab')"]
 
 
